@@ -114,7 +114,7 @@ def e1_cases(tier):
     one = [("A0", "str")] + C
     for ctor, neg in (("AnyFrom", False), ("AnyButFrom", True)):
         want = "(c == ord(A0))"
-        body = "p = %s(A0)\nreturn class_member(str(p), c) == (%s%s)" % (ctor, "not " if neg else "", want)
+        body = "p = %s(A0)\nreturn member_ok(str(p), c, (%s%s))" % (ctor, "not " if neg else "", want)
         cs.append(engine.raw_case(body, one, ["len(A0) == 1 and " + rng], "%s(a): candidate c matched iff %sc == a (a, c symbolic)" % (ctor, "not " if neg else "")))
         for other in ("b", "[", "-", "\\\\", "]", "^"):
             want = "(c == ord(A0) or c == %d)" % ord(other[-1] if other != "\\\\" else "\\")
@@ -122,7 +122,7 @@ def e1_cases(tier):
             for order in ("%s(A0, %s)" % (ctor, lit), "%s(%s, A0)" % (ctor, lit)):
                 if tier == "quick" and (neg or order.endswith("A0)")) and other not in ("[",):
                     continue
-                body = "p = %s\nreturn class_member(str(p), c) == (%s%s)" % (order, "not " if neg else "", want)
+                body = "p = %s\nreturn member_ok(str(p), c, (%s%s))" % (order, "not " if neg else "", want)
                 cs.append(engine.raw_case(body, one, ["len(A0) == 1 and " + rng], "%s: candidate c matched iff %sc in {a, %s} (a, c symbolic)" % (order, "not " if neg else "", other)))
     for ctor, neg in (("AnyBetween", False), ("AnyButBetween", True)):
         for fixed, first in (("m", False), ("m", True), ("[", False), ("-", True)):
@@ -132,14 +132,14 @@ def e1_cases(tier):
                 continue
             body = ("try:\n    p = %s\nexcept InvalidRangeException:\n    return %s >= %s\n"
                     "if %s >= %s:\n    return False\n"
-                    "return class_member(str(p), c) == (%s(%s <= c and c <= %s))") % (call, lo, hi, lo, hi, "not " if neg else "", lo, hi)
+                    "return member_ok(str(p), c, (%s(%s <= c and c <= %s)))") % (call, lo, hi, lo, hi, "not " if neg else "", lo, hi)
             cs.append(engine.raw_case(body, one, ["len(A0) == 1 and " + rng], "%s: range membership / InvalidRangeException iff start >= end (a, c symbolic)" % call))
     if tier == "thorough":
         two = [("A0", "str"), ("A1", "str")] + C
-        body = "p = AnyFrom(A0, A1)\nreturn class_member(str(p), c) == (c == ord(A0) or c == ord(A1))"
+        body = "p = AnyFrom(A0, A1)\nreturn member_ok(str(p), c, (c == ord(A0) or c == ord(A1)))"
         cs.append(engine.raw_case(body, two, ["len(A0) == 1 and len(A1) == 1 and " + rng], "AnyFrom(a, b): candidate matched iff c in {a, b} (a, b, c symbolic)"))
         body = ("try:\n    p = AnyBetween(A0, A1)\nexcept InvalidRangeException:\n    return ord(A0) >= ord(A1)\nif ord(A0) >= ord(A1):\n    return False\n"
-                "return class_member(str(p), c) == (ord(A0) <= c and c <= ord(A1))")
+                "return member_ok(str(p), c, (ord(A0) <= c and c <= ord(A1)))")
         cs.append(engine.raw_case(body, two, ["len(A0) == 1 and len(A1) == 1 and " + rng], "AnyBetween(a, b): range membership (a, b, c symbolic)"))
     return cs
 
